@@ -25,12 +25,14 @@ TRUSTED = ["the C07 and C13 parser models (Model/IsoParse.v, Model/DurParse.v, g
            "CPython: str -> &str conversion (lone surrogates raise UnicodeEncodeError), Unicode decimal digits (Gen/UnicodeNd.v is generated from the "
            "staged interpreter's str.isdecimal/unicodedata.decimal), int()'s 4300-digit limit, datetime/timedelta range checks (Spec/NativeDT.v)",
            "dateutil.parser.parse is an opaque oracle ARGUMENT of the model (a Section variable); theorems that need it assume only that it returns a "
-           "datetime or raises ValueError, and the run reports inputs on which the real dateutil violates that (finding dateutil-overflowerror)",
+           "datetime or raises ValueError or OverflowError (both are turned into ParserError by parsing._parse), and the run reports inputs on which "
+           "the real dateutil raises anything else",
            "DateTime.add/subtract on fixed-offset values = translated helpers.add_duration (Gen/AddDuration.v) + Spec/NativeDT.v; Interval.__new__ "
            "modelled by hand (type checks, same-tzinfo shift)"]
 ASSUMPTIONS = ["the tz option is absent or a pendulum FixedTimezone with |offset| < 24 h; options['now'] is given",
-               "pure-Python backend: when a digit run exceeds int()'s 4300-digit limit the model answers ValueError; this is exact unless an earlier "
-               "component carries a fraction of 309+ digits (then CPython raises OverflowError first) — such strings are not generated",
+               "pure-Python backend: when a digit run exceeds int()'s 4300-digit limit the model answers ValueError whatever the other components are "
+               "(an earlier fraction of 309+ digits makes CPython raise OverflowError first, which parse_iso8601 now turns into ParserError: the "
+               "same class of outcome)",
                "strings are sequences of Unicode code points (surrogates allowed); the Nd table is the staged interpreter's"]
 VM_SUBSET = 60
 
@@ -429,7 +431,12 @@ def model_result(c, backend, outs):
 
 def _same_item(m, r):
     if m == [1, "DATEUTIL"]:
-        return len(r) == 2 and r[0] == r[1]
+        # the chain reached the fallback: parse delivers what dateutil answers; its ValueError (recorded as ParserError by impl_run) and its
+        # OverflowError (recorded under its own name, so that an escape is still recognised) both become ParserError (Props/C17.v oracle_delivery)
+        # ... and so does a datetime whose tzoffset is 24 h or more (dt.utcoffset() is called inside the same try)
+        d = r[1] if len(r) == 2 else None
+        rejected = d == [1, "OverflowError"] or (d is not None and d[0] == 0 and d[1] == 1 and d[9] == 1 and abs(d[10]) >= 86400)
+        return len(r) == 2 and r[0] == ([1, "ParserError"] if rejected else d)
     return r[0] == m
 
 
@@ -531,7 +538,7 @@ _PY_RES = {}
 _RX_SEC_FRAC = re.compile(r"(?:[0-9]{2}:[0-9]{2}:[0-9]{2}|[T ][0-9]{6})[.,]([0-9]+)(?:Z|[+-][0-9]{2}(?::?[0-9]{2})?)?\Z")
 
 
-def _failures(c, backend, r):
+def _failures_raw(c, backend, r):
     """[(why, finding id or None)] over the items of the batch"""
     out = []
     items = items_of(c)
@@ -580,6 +587,8 @@ def _failures(c, backend, r):
 
 def _classify_exc(s, o, lvl, backend, res, item):
     name = res[1]
+    # (findings common-minute-absent-typeerror and interval-non-datetime-endpoint are `fixed`: a TypeError / AttributeError in their former regions
+    # is reported as a VIOLATION under the id)
     if name == "TypeError":
         # COMMON matched with the time group present and the minute group absent (own transcription of the pattern BEFORE the repair that made
         # the minute group mandatory; finding common-minute-absent-typeerror is `fixed`, so a TypeError here is reported as a VIOLATION under that id)
@@ -590,6 +599,9 @@ def _classify_exc(s, o, lvl, backend, res, item):
     if name == "AttributeError" and lvl == "top" and s.count("/") == 1 and s[:1] == "P" and s.split("/")[1][:1] == "P":
         return "interval-non-datetime-endpoint"
     if name == "OverflowError":
+        # every OverflowError finding is `fixed` (except clauses in parse_iso8601, parser._parse and around dateutil): the ids below only name
+        # which repair regressed; the runner reports the input as a VIOLATION
+        # (finding dateutil-overflowerror is `fixed`: parsing._parse catches dateutil's OverflowError; an escape is reported as a VIOLATION under that id)
         if lvl == "top" and not o["strict"] and len(item) == 2 and item[1] == [1, "OverflowError"]:
             return "dateutil-overflowerror"
         halves = s.split("/") if s.count("/") == 1 else [s]
@@ -613,6 +625,8 @@ def _fits(d, backend):
 
 
 def _classify_offset(s, o, item):
+    # finding offset-out-of-range-accepted is `fixed` (both offset recognisers reject 24 h and more, dt.utcoffset() is checked on the dateutil
+    # hand-over): a DateTime with such an offset is reported as a VIOLATION under that id
     # the parsers' own offset syntax [+-]hh[:][mm] at the end of a date-time (or of an interval half), any two-digit hour accepted ...
     m = re.search(r"([+-])(\d{2}):?(\d{2})?(?:/.*)?\n?\Z", s) or re.search(r"([+-])(\d{2}):?(\d{2})?/", s)
     if m:
@@ -721,6 +735,26 @@ def _classify_disagree(s, o, item, oitem):
     return None
 
 
+def _fixed_ids():
+    """ids of the findings of known_findings/C17.json that are repaired (status "fixed")"""
+    import os
+    try:
+        with open(os.path.join(os.path.dirname(os.path.abspath(__file__)), "..", "..", "known_findings", "C17.json")) as fh:
+            return {f["id"] for f in json.load(fh)["findings"] if f.get("status") == "fixed"}
+    except (OSError, ValueError, KeyError):
+        return set()
+
+
+_FIXED = _fixed_ids()
+
+
+def _failures(c, backend, r):
+    """a failure inside the region of a REPAIRED finding is not a listed defect any more: it is reported first, unclassified, and names the
+    finding that regressed (a batch holds many strings; the other, still listed, failures of the batch must not hide it)"""
+    out = [((f"{why} (regression: finding {k} is recorded as repaired)", None) if k in _FIXED else (why, k)) for why, k in _failures_raw(c, backend, r)]
+    return sorted(out, key=lambda wk: wk[1] is not None)
+
+
 def oracle(c, backend, r):
     f = _failures(c, backend, r)
     if not f:
@@ -736,12 +770,15 @@ def known(c, backend, r):
     return None
 
 
-LEVEL_TEXT = ("Machine-checked Coq theorems about an executable model of the whole pendulum.parse chain (built on the C07/C13 parser models): totality "
-              "of the compiled parser over ALL strings, of the pure-Python post-match code over all strings through the Coq regex matcher, of the "
-              "fallback chain with the escape regions characterised (_parse_common total on every string: COMMON's minute group proved mandatory on the "
-              "generated pattern, so '2:' is a ParserError; TypeError iff an interval endpoint is not a date-time, OverflowError iff the duration constructor or the interval arithmetic overflows, AttributeError iff both halves are "
-              "durations), strict=True never reaches dateutil; refutations by witness for each escape; differential correspondence on ~3*10^5 "
-              "edited strings per run and four independent oracles.")
+LEVEL_TEXT = ("Machine-checked Coq theorems about an executable model of the whole pendulum.parse chain (built on the C07/C13 parser models): "
+              "parse_total at full strength for the compiled backend (EVERY string, every option combination, any dateutil that returns a datetime or "
+              "raises ValueError/OverflowError: a supported value or ValueError/ParserError, nothing else), totality of the pure-Python date/time "
+              "post-match code over all strings through the Coq regex matcher and of _parse_common on every string (COMMON's minute group proved "
+              "mandatory on the generated pattern), every form returned by _parse_iso8601_interval has date/date-time endpoints (either backend), UTC "
+              "offsets of 24 h and more rejected (compiled recogniser: every text; both backends and the dateutil hand-over: witnesses), strict=True "
+              "never reaches dateutil; the former escapes (TypeError, AttributeError, OverflowError) are rejection theorems on their witnesses; "
+              "refutations by witness for the remaining findings (u32 wrap, backend differences); differential correspondence on ~3*10^5 edited "
+              "strings per run and four independent oracles.")
 DESIGN_REF = "DESIGN.md section 4 C17"
 LEVEL_NOTE = ("Trusted: Coq kernel+VM, the reused C07/C13 models and the hand-written glue (tied by correspondence every run), extraction+driver, the "
               "stdlib recognisers of the harness. dateutil is an oracle argument: nothing is assumed about it beyond the stated hypothesis.")
